@@ -7,6 +7,7 @@ import (
 	"sort"
 	"strings"
 	"sync"
+	"sync/atomic"
 	"time"
 
 	ipfslog "berty.tech/go-ipfs-log"
@@ -29,8 +30,9 @@ type ScenCfg struct {
 	Wild    bool // wildcard write list instead of explicit ids
 
 	// weights of step kinds
-	WWrite, WDeliver, WDeliverAll, WDrop, WDup, WCut, WHeal, WRestart, WSync, WConc, WBurst, WFaultyDeliver, WHoleHeal, WSnapshot int
-	CheckEvery                                                                                                                    int
+	WWrite, WDeliver, WDeliverAll, WDrop, WDup, WCut, WHeal, WRestart, WSync, WConc, WBurst, WFaultyDeliver, WHoleHeal, WSnapshot, WWriteMid int
+	SnapFresh                                                                                                                                bool // snap steps may also restart a peer and load only its snapshot
+	CheckEvery                                                                                                                               int
 }
 
 type Step struct {
@@ -48,7 +50,7 @@ func (s Step) String() string {
 		return fmt.Sprintf("w%d:%s", s.A, s.Op)
 	case "conc":
 		return fmt.Sprintf("conc%d:%s", s.A, s.Op)
-	case "cut", "heal", "sync", "hh":
+	case "cut", "heal", "sync", "hh", "wmid":
 		return fmt.Sprintf("%s(%d,%d)", s.K, s.A, s.B)
 	case "restart":
 		return fmt.Sprintf("restart(%d)", s.A)
@@ -74,31 +76,33 @@ type Runner struct {
 	DB    *DB
 	Rng   *rand.Rand
 
-	mu            sync.Mutex
-	Universe      map[string]*EntryInfo
-	Acked         []string                   // hashes of acknowledged writes, in ack order
-	SeenAtWrite   map[string]map[string]bool // hash -> hashes in the writer's log before the write
-	WriterOf      map[string]int
-	Counter       int
-	Trace         []string
-	V             fw.Verdict
-	Checks        []func(r *Runner, snaps []*Snap, label string) *Violation
-	prevSnap      map[int]*Snap
-	Lost          int
-	Restarts      int
-	Cuts          int
-	ConcSteps     int
-	FaultyFetches int
-	HoleHeals     int
-	SnapLoads     int
-	snapSaved     map[int]bool
-	Checkpoints   int
-	Compared      int
-	failed        *Violation
-	watchdog      bool
-	stale         map[int]bool // peers whose view may lag their log after an injected datastore failure
-	PeerOpts      func(i int, o *sim.PeerOpts)
-	OnStep        func(si int, st Step)
+	mu             sync.Mutex
+	Universe       map[string]*EntryInfo
+	Acked          []string                   // hashes of acknowledged writes, in ack order
+	SeenAtWrite    map[string]map[string]bool // hash -> hashes in the writer's log before the write
+	WriterOf       map[string]int
+	Counter        int
+	Trace          []string
+	V              fw.Verdict
+	Checks         []func(r *Runner, snaps []*Snap, label string) *Violation
+	prevSnap       map[int]*Snap
+	Lost           int
+	Restarts       int
+	Cuts           int
+	ConcSteps      int
+	FaultyFetches  int
+	HoleHeals      int
+	SnapLoads      int
+	MidWrites      int
+	SnapFreshLoads int
+	snapSaved      map[int]bool
+	Checkpoints    int
+	Compared       int
+	failed         *Violation
+	watchdog       bool
+	stale          map[int]bool // peers whose view may lag their log after an injected datastore failure
+	PeerOpts       func(i int, o *sim.PeerOpts)
+	OnStep         func(si int, st Step)
 }
 
 func (r *Runner) logf(f string, a ...interface{}) {
@@ -190,7 +194,7 @@ func (r *Runner) GenSteps(rng *rand.Rand) []Step {
 		k string
 		w int
 	}
-	ws := []wk{{"w", c.WWrite}, {"d", c.WDeliver}, {"da", c.WDeliverAll}, {"drop", c.WDrop}, {"dup", c.WDup}, {"cut", c.WCut}, {"heal", c.WHeal}, {"restart", c.WRestart}, {"sync", c.WSync}, {"conc", c.WConc}, {"burst", c.WBurst}, {"fd", c.WFaultyDeliver}, {"hh", c.WHoleHeal}, {"snap", c.WSnapshot}}
+	ws := []wk{{"w", c.WWrite}, {"d", c.WDeliver}, {"da", c.WDeliverAll}, {"drop", c.WDrop}, {"dup", c.WDup}, {"cut", c.WCut}, {"heal", c.WHeal}, {"restart", c.WRestart}, {"sync", c.WSync}, {"conc", c.WConc}, {"burst", c.WBurst}, {"fd", c.WFaultyDeliver}, {"hh", c.WHoleHeal}, {"snap", c.WSnapshot}, {"wmid", c.WWriteMid}}
 	tot := 0
 	for _, x := range ws {
 		tot += x.w
@@ -209,6 +213,13 @@ func (r *Runner) GenSteps(rng *rand.Rand) []Step {
 		}
 		st := Step{K: k, R: rng.Float64()}
 		switch k {
+		case "wmid":
+			// A: the writer that is behind and writes in the middle of its replication; B: the writer it replicates from
+			st.A = wr[rng.Intn(len(wr))]
+			st.B = wr[rng.Intn(len(wr))]
+			st.N = 2 + rng.Intn(3) // fetches let through before the rest is parked
+			op := r.GenOp(rng)
+			st.Op = &op
 		case "hh":
 			st.A = wr[rng.Intn(len(wr))]
 			st.B = rng.Intn(c.NPeers - 1)
@@ -443,6 +454,63 @@ func (r *Runner) Exec(steps []Step) {
 				r.logf("deliver %s %d->%d", m.Kind, m.From, m.To)
 				r.settle()
 			}
+		case "wmid":
+			// a local write in the middle of a replication: B writes a backlog, A receives its newest
+			// announcement, N block fetches go through, the others are parked; A writes; the fetches resume
+			A, B := r.Peers[st.A], r.Peers[st.B]
+			if st.A == st.B || !A.Running() || !B.Running() || !w.Linked(A, B) {
+				break
+			}
+			for _, m := range w.Inflight() {
+				if m.From == st.B && m.To == st.A {
+					w.Take(m.ID)
+					r.Lost++
+				}
+			}
+			for k := 0; k < st.N+3; k++ {
+				_ = r.Write(st.B, r.GenOp(r.Rng))
+				r.settle()
+			}
+			var newest *sim.Msg
+			for _, m := range w.Inflight() {
+				if m.From == st.B && m.To == st.A && m.Kind == "pub" {
+					if newest != nil {
+						w.Take(newest.ID)
+					}
+					newest = m
+				}
+			}
+			if newest == nil {
+				break
+			}
+			w.Take(newest.ID)
+			release := make(chan struct{})
+			var through int64
+			w.SetGate(func(ctx context.Context, to, from *sim.Peer, _ cid.Cid) error {
+				if to != A || atomic.AddInt64(&through, 1) <= int64(st.N) {
+					return nil
+				}
+				w.HoldBlocked(1)
+				defer w.HoldBlocked(-1)
+				select {
+				case <-release:
+				case <-ctx.Done():
+					return ctx.Err()
+				}
+				return nil
+			})
+			w.Deliver(newest)
+			w.WaitIdle(sim.IdleOpts{BlockedOK: true, IgnoreReplicators: true, Watchdog: 20 * time.Second})
+			parked := w.Blocked()
+			_ = r.write(st.A, *st.Op, true)
+			w.WaitIdle(sim.IdleOpts{BlockedOK: true, IgnoreReplicators: true, Watchdog: 20 * time.Second})
+			close(release)
+			w.SetGate(nil)
+			r.settle()
+			if parked > 0 {
+				r.MidWrites++
+			}
+			r.logf("write in the middle of a replication %d<-%d (%d fetches through, %d parked)", st.A, st.B, st.N, parked)
 		case "hh":
 			// hole then heal: B receives only A's newest head while none of its ancestors can be fetched
 			// (the head is merged alone, above a hole); the same announcement is then delivered again
@@ -501,6 +569,26 @@ func (r *Runner) Exec(steps []Step) {
 						r.logf("snapshot saved on p%d (%d entries)", st.A, s.OpLog().Len())
 					}
 					scancel()
+				} else if r.Cfg.SnapFresh && r.Cfg.OnDisk && st.R >= 0.75 {
+					// restart, then load ONLY the snapshot into the fresh store
+					p := r.Peers[st.A]
+					p.Stop()
+					r.settle()
+					err := p.Start()
+					if err == nil {
+						err = r.E.OpenOn(r.DB, p)
+					}
+					if err != nil {
+						r.fail("restart-failed", err.Error())
+						break
+					}
+					lctx, lcancel := context.WithTimeout(bg, 30*time.Second)
+					err = r.store(st.A).LoadFromSnapshot(lctx)
+					lcancel()
+					r.Restarts++
+					r.SnapFreshLoads++
+					delete(r.prevSnap, st.A)
+					r.logf("p%d restarted and loaded only its snapshot: %v", st.A, err)
 				} else {
 					lctx, lcancel := context.WithTimeout(bg, 30*time.Second)
 					err := s.LoadFromSnapshot(lctx)
